@@ -329,9 +329,6 @@ class ContractMixin:
         if clsname in ("list", "tuple", "set", "frozenset", "dict", "str", "int", "bool"):
             return self.builtin_construct(clsname, node, st)
         self.note_class(clsname)
-        o = self.fresh_term(st, "new_" + clsname, V)
-        st.assume(typeof(o) == CLASSES.const(clsname))
-        st.assume(o != NONE)
         args, kwargs = self.eval_args(node, st)
         fields = extract.dataclass_fields(clsname, self.reg.modules) if hit else None
         is_dc = hit is not None and any("dataclass" in ast.unparse(d) for d in hit[1].decorator_list)
@@ -343,6 +340,7 @@ class ContractMixin:
                 if h2 and any("dataclass" in ast.unparse(d) for d in h2[1].decorator_list):
                     anc_dc = True
         custom_init = hit is not None and extract.has_method(clsname, "__init__", self.reg.modules)
+        o = None
         if anc_dc and fields and not custom_init:
             init_fields = [f for f in fields if f["init"]]
             vals = {}
@@ -358,13 +356,22 @@ class ContractMixin:
                     if f["default"] is None:
                         raise Unsupported(f"constructor {clsname}: missing {f['name']}")
                     vals[f["name"]] = self.eval_default(f["default"], hit[0], st)
-            for name, v in vals.items():
-                if v.kind == "pyobj":
-                    continue
-                st.assume(fld(name)(o) == box(v, st))
+            # dataclass instances are *values*: the object is a function of its field values, so two
+            # constructions with equal fields are the same term (assumption: identity of structurally
+            # equal dataclass instances is never observed by the kernels)
+            boxed = [(f["name"], box(vals[f["name"]], st)) for f in init_fields if vals[f["name"]].kind != "pyobj"]
+            ctor = uf("new_" + clsname, *([V] * len(boxed)), V)
+            o = ctor(*[b for _, b in boxed]) if boxed else CONSTS.get("new", clsname)
+            st.assume(typeof(o) == CLASSES.const(clsname))
+            st.assume(o != NONE)
+            for name, b in boxed:
+                st.assume(fld(name)(o) == b)
             if extract.has_method(clsname, "__post_init__", self.reg.modules):
                 self.collector.assumptions.add(f"{clsname}.__post_init__ not modelled at construction in {self.kernel.qualname}")
         else:
+            o = self.fresh_term(st, "new_" + clsname, V)
+            st.assume(typeof(o) == CLASSES.const(clsname))
+            st.assume(o != NONE)
             # exception classes and plain classes: arguments are recorded positionally
             for i, a in enumerate(args):
                 if not isinstance(a, tuple) and a.kind != "pyobj":
